@@ -203,8 +203,24 @@ func c13RegistryDeleteOnlyWhatWasFound(p *Prog, r *Report, rule string) {
 	dels := f.Match(func(n *GNode) bool {
 		for _, c := range callsIn(n.Ast, false) {
 			if sel, ok := ast.Unparen(c.Fun).(*ast.SelectorExpr); ok && sel.Sel.Name == "Delete" {
-				if tv, ok := info.Types[sel.X]; ok && strings.Contains(tv.Type.String(), "omap") {
-					return true
+				// the registry's storage: an ordered map, under whatever name (a type with Load and Delete)
+				if tv, ok := info.Types[sel.X]; ok {
+					if strings.Contains(tv.Type.String(), "omap") {
+						return true
+					}
+					ms := types.NewMethodSet(tv.Type)
+					if _, isPtr := tv.Type.(*types.Pointer); !isPtr {
+						ms = types.NewMethodSet(types.NewPointer(tv.Type))
+					}
+					hasLoad := false
+					for i := 0; i < ms.Len(); i++ {
+						if ms.At(i).Obj().Name() == "Load" {
+							hasLoad = true
+						}
+					}
+					if hasLoad && len(c.Args) == 1 {
+						return true
+					}
 				}
 			}
 		}
